@@ -35,6 +35,11 @@ CLAIMED["C05"] = ("exploration",
  "Seeded search over (rooted graph of 1-8 versions with plain and split names, edit history per edge, creation order, malformation, query sequence interleaved with damage and heals). Every get/apply_diffs answer must equal the reference (root contracted, diffs along a shortest path, extension) for some shortest path; malformed directories must be refused; a directory whose lookup key is claimed twice must answer identically under three creation orders; under damage: Err, the reference reading of the current bytes, or the pre-damage answer; after heal the healthy answer. Sampling, not proof.",
  "trusted: c05 reference graph model, refdiff, refmap, SimDir (tmpfs lists newest-first on this kernel; the observed listing is logged), petgraph is exercised as real code",
  "DESIGN.md section 4 C05")
+CLAIMED["C19"] = ("exploration",
+ "deterministic simulation: the async Downloader seam replaced by a simulated network (per-request latency as Pending polls under a harness executor whose poll counter is the only clock, 404 per repository, transient errors, repository down, wrong modelVersion, cancellation and retry) checked against a reference Maven resolver",
+ "Seeded search over (POM universe within the supported subset, 1-4 repositories, root list, latency schedule, 0-2 network faults). T0: result equals the reference resolver (order, coordinates, versions, scopes, serving repository = first in list order). T1: latency and 404 fallbacks never change the result; bounded polls. T2: Err, or the fault-free / faulty-repo-absent answer; after faults stop a fresh call gives the T0 answer within a poll budget; cancel-then-retry equals an uninterrupted call. Display/parse round trips ride along. Sampling, not proof.",
+ "trusted: refmvn (reference resolver from Maven's dependency-mechanism guide), SimNet, harness executor, serde-xml-rs; request order is logged, never constrained; generator restrictions listed in evidence assumptions",
+ "DESIGN.md section 4 C19")
 PENDING = {}  # id -> reason (claimed in DESIGN.md but the check is not built yet)
 
 def main():
